@@ -74,12 +74,19 @@ example : let q : TypeD := { kind := .object, name := "Query", fields := [{ name
         = some ["__typename", "x", "__schema"] := by
   decide
 
-/-- what the code does when introspection is ENABLED and `__schema` / `__type` is selected below a type that is
-    not the query type: no branch of the if/elif chain assigns `field_def` (Python: `UnboundLocalError`).
-    Validation rejects such documents first; recorded because `execute` can be called on its own. -/
-theorem meta_below_non_query_unbound (s : SchemaD) (p : TypeD) (h : (s.query == some p.name) = false) :
-    fieldDefinition s false p "__schema" = .unbound ∧ fieldDefinition s false p "__type" = .unbound := by
-  simp [fieldDefinition, isMeta, metaFieldNames, metaChain, walkChain, h]
+/-- introspection ENABLED, `__schema` / `__type` selected below a type that is not the query type: no branch of the
+    if/elif chain applies and the lookup answers `None` — "not a field of this type", the executor's ordinary
+    unknown-field handling (`field_def = None` is set before the chain since c907521; before that nothing was
+    assigned and Python raised `UnboundLocalError`, which this theorem then stated). Validation rejects such
+    documents first; recorded because `execute` can be called on its own. -/
+theorem meta_below_non_query_not_a_field (s : SchemaD) (p : TypeD) (h : (s.query == some p.name) = false) :
+    fieldDefinition s false p "__schema" = .ok none ∧ fieldDefinition s false p "__type" = .ok none := by
+  simp [fieldDefinition, isMeta, metaFieldNames, metaChain, walkChain, metaTarget, h]
+
+/-- ... while `__typename` is a field of EVERY type, and the lookup never fails for any name -/
+theorem typename_everywhere (s : SchemaD) (p : TypeD) :
+    fieldDefinition s false p "__typename" = .ok (some .typenameField) := by
+  simp [fieldDefinition, isMeta, metaFieldNames, metaChain, walkChain, metaTarget]
 
 /-! ## deprecated members -/
 
